@@ -19,6 +19,19 @@ class Opaque:
         return "<Opaque %s>" % self.label
 
 
+class AbstractSeq:
+    """a sequence of unknown length whose elements are produced by `factory()` (fresh values of the
+    right shape each time): used for e.g. graph.edges = pairs of ints."""
+
+    def __init__(self, factory, label="seq", length=None):
+        self.factory = factory
+        self.label = label
+        self.length = length
+
+    def __repr__(self):
+        return "<AbstractSeq %s>" % self.label
+
+
 class EnumMember:
     def __init__(self, cls, name, value):
         self.cls = cls
@@ -149,6 +162,8 @@ def _elem_wrap(kind, term):
         return mk_int(term)
     if kind == "ref":
         return SRef(term)
+    if kind == "opaque":
+        return Opaque("elem")
     raise OutOfSubset("list kind %s" % kind)
 
 
@@ -165,6 +180,8 @@ def _elem_unwrap(kind, v):
         if z is None:
             raise OutOfSubset("non-int stored in an int list")
         return z
+    if kind == "opaque":
+        return z3.Int(CTX.fresh_name("oq"))
     if kind == "ref":
         if isinstance(v, SRef):
             return v.t
@@ -301,7 +318,12 @@ class VList:
                 if self.items is not None:
                     self.make_symbolic(o.kind)
                 if self.kind != o.kind:
-                    raise OutOfSubset("extend with a list of another element kind")
+                    # mixed element kinds: keep the length, forget the contents
+                    la = self.length
+                    self.kind = "ref"
+                    self.arr = z3.Array(CTX.fresh_name("mixed"), z3.IntSort(), z3.IntSort())
+                    self.length = z3.simplify(la + o.length)
+                    return
                 k = z3.Int(CTX.fresh_name("k"))
                 la = self.length
                 self.arr = z3.Lambda([k], z3.If(k < la, z3.Select(self.arr, k), z3.Select(o.arr, k - la)))
